@@ -152,6 +152,9 @@ type SimCluster struct {
 	StreamEndSupported   bool
 	MgmtEndpoint         string
 	PingErr              func() error // scripted ping outcome (nil = healthy)
+	// PingShape, when set, supplies the per-service endpoint reports of a ping that gocbcore itself completed
+	// without error (multi-node clusters with some nodes down)
+	PingShape func() map[ServiceType][]EndpointPingResult
 
 	// Fault decides what the server does with a request when it picks it up (nil = serve it).
 	Fault func(r *SimRequest) SimAnswer
